@@ -8,7 +8,7 @@ class PROP(Prop):
     id = "C20"
     profiles = ["debug", "release"]
     rule = ("every typed method x replies of the matching function code whose item count / echoed fields are smaller than, equal to, "
-            "larger than requested (incl. 0, 1, byte-boundary +-1, maximal), each echoed field of a write reply perturbed on its own, plus exception replies; TCP and RTU; debug and release. "
+            "larger than requested (incl. 0, 1, byte-boundary +-1, maximal), each echoed field of a write reply perturbed on its own, plus exception replies; every typed method x replies of every OTHER kind (all response variants, the serial-line codes 0x07/0x0B/0x0C/0x18, exceptions of other functions, custom codes), whole and split at every offset; TCP and RTU; debug and release. "
             "non-trivial = reply count or echo differs from the request")
 
     def cases(self, rng, tier):
@@ -54,6 +54,26 @@ class PROP(Prop):
                             self.add(cs, proto, prof, ("WSR", a, v), ("WSR", a, v ^ (1 << rng.randrange(16))), rng, {"echo": True})
                             self.add(cs, proto, prof, ("WMR", a, ws), ("WMR", a ^ (1 << rng.randrange(16)), len(ws)), rng, {"echo": True})
                             self.add(cs, proto, prof, ("WMC", a, coils), ("WMC", a ^ (1 << rng.randrange(16)), len(coils)), rng, {"echo": True})
+                # replies of a FOREIGN kind (every response variant, the serial-line codes, exceptions of other functions), whole and
+                # split at every offset: the typed method returns a result (an error), never panics, never reports success
+                typed_reqs = [("RC", 1, 3), ("RDI", 1, 3), ("RHR", 1, 2), ("RIR", 1, 2), ("RWMR", 1, 2, 3, [4]), ("WSC", 1, True), ("WSR", 1, 2),
+                              ("WMC", 1, [True, False]), ("WMR", 1, [2, 3]), ("MWR", 1, 2, 3)]
+                foreign = [mb.spec_rsp_pdu(r) for r in [("RC", [True] * 8), ("RDI", [False] * 8), ("RHR", [1, 2]), ("RIR", [1, 2]), ("RWMR", [1, 2]), ("WSC", 1, True),
+                                                        ("WSR", 1, 2), ("WMC", 1, 2), ("WMR", 1, 2), ("MWR", 1, 2, 3), ("RSI", 1, True, b"ab")]]
+                foreign += [bytes([0x18, 0, 4, 0, 1, 0xAA, 0xBB]), bytes([0x18, 0, 0]), bytes([0x07, 0x55]), bytes([0x0B, 0, 0, 0, 9]), bytes([0x0C, 2, 1, 2]),
+                            bytes([0x81, 2]), bytes([0x98, 1]), bytes([0xAB, 4])]
+                if proto == "tcp":
+                    foreign += [bytes([0x41, 1, 2, 3]), bytes([0x2B, 0x0E]), bytes([0xFF, 1])]
+                for req in typed_reqs:
+                    for pdu in foreign:
+                        if pdu[0] == mb.req_fc(req):
+                            continue
+                        slave = rng.randrange(1, 248)
+                        fr = cligen.frame(proto, 0, slave, pdu)
+                        splits = [[fr]] + ([[fr[:i], fr[i:]] for i in range(1, len(fr))])
+                        for parts in splits:
+                            cs.append(Case(cligen.cli_line(proto, slave, [cligen.call_op(req, R=mb.rscript(parts), typed=True)]),
+                                           {"foreign": True, "req": mb.show_req(req), "pdu": pdu.hex(), "split": len(parts[0])}, prof))
         return cs
 
     def add(self, cs, proto, prof, req, rsp, rng, meta):
@@ -74,6 +94,10 @@ class PROP(Prop):
         r, _ = cligen.res_and_w(c.impl or "")
         if "PANIC" in r or "CRASH" in r or "NORESULT" in r:
             return "typed method panicked: %s" % r[:60]
+        if c.meta.get("foreign"):
+            if r == "U" or r.startswith("B:") or r.startswith("W:"):
+                return "typed %s reported success (%s) for a reply of another kind (PDU %s)" % (c.meta["req"][:40], r[:40], c.meta["pdu"])
+            return None
         req = mb.parse_req(c.meta["req"]); rsp = mb.parse_rsp(c.meta["rsp"])
         if "exc" in c.meta:
             return None if r == "EX:%d" % c.meta["exc"] else "exception reply not returned as inner error: %s" % r[:60]
@@ -108,4 +132,4 @@ class PROP(Prop):
         return None if r == "U" or r.startswith("T:") else "typed write: unexpected %s" % r[:60]
 
     def nontrivial(self, c):
-        return c.meta.get("echo", False) or c.meta.get("q") != c.meta.get("have")
+        return c.meta.get("foreign", False) or c.meta.get("echo", False) or c.meta.get("q") != c.meta.get("have")
